@@ -79,7 +79,22 @@ pub fn check(c: &Call, probe: &MCTPSMBusContext, rep: &mut Report) {
     }
     let pkt = match note_outcome(rep, c, &obs) {
         Some(p) => p,
-        None => return,
+        None => {
+            // the encoder reported success with a length that cannot be a packet's (below the 10
+            // bytes of framing or beyond the buffer): "the returned length equals byte count + 4"
+            // is about exactly this value (seeded C04-l: the sum computed in u8 wraps to 0..3 when
+            // overflow checks are off)
+            if let Ok(Ok(n)) = &obs.res {
+                let n = *n;
+                let bc = obs.buf.get(2).copied().unwrap_or(0);
+                rep.violation(
+                    &format!("{}:returned-length-not-a-packet-length", form),
+                    || format!("encoder returned Ok({}) for a message that fits the frame; the byte count field it wrote is {} (packet length {})", n, bc, bc as usize + 4),
+                    || c.encode(),
+                );
+            }
+            return;
+        }
     };
     let n = pkt.len();
     rep.class(len_bucket(n));
